@@ -270,7 +270,7 @@ Lemma read_objects_fixed_bs bv o rf rp fo po k sx m h v cnt pk so : int_min <= c
       (OReturn (VInt (fixed_status k sx v cnt)) (rof (VPtr rf fo) v cnt (VPtr rp po) pk l' so' bv k' sx' h' m' o)) /\ storable so' = true /\
     (fixed_status k sx v cnt = SBDF_OK ->
        so' = VCell (List.length h) 0 /\ h' = h ++ [Some [VInt v; VInt cnt; VPtr RIn (zlen m)]] /\
-       m' = m ++ firstn (Z.to_nat (usize v * cnt)) sx /\ sx' = skipn (Z.to_nat (usize v * cnt)) sx) /\
+       m' = m ++ firstn (Z.to_nat (usize v * cnt)) sx /\ sx' = skipn (Z.to_nat (usize v * cnt)) sx /\ k' = dec (dec k)) /\
     (fixed_status k sx v cnt <> SBDF_OK -> so' = VNull /\ (h' = h \/ h' = h ++ [None]) /\ exists mm, m' = m ++ mm).
 Proof.
   intros Hc Ha. unfold fixed_status.
@@ -313,7 +313,7 @@ Theorem read_objects_fixed_source rf rp fo po k sx m h v cnt pk : int_min <= cnt
 Proof.
   intros Hc Ha. destruct (read_objects_fixed_bs (VInt 0) [] rf rp fo po k sx m h v cnt pk VUndef Hc Ha) as (l' & so' & k' & sx' & h' & m' & B & _ & P1 & P2).
   destruct (bsE_sound _ _ _ _ B) as (f0 & F). exists f0. intros f Hf. eexists. split; [apply F; exact Hf|]. split.
-  - intros E. destruct (P1 E) as (-> & -> & -> & ->). repeat split; reflexivity.
+  - intros E. destruct (P1 E) as (-> & -> & -> & -> & _). repeat split; reflexivity.
   - intros E. destruct (P2 E) as (-> & Hh & mm & ->). split; [reflexivity|]. split; [destruct Hh as [->| ->]; [left|right]; reflexivity|exists mm; reflexivity].
 Qed.
 
@@ -399,7 +399,7 @@ Proof.
     destruct (read_objects_fixed_bs (VInt 0) [] rf rp fo po k s1 m h v cnt 1 VUndef Hc Ha) as (l' & so' & k' & sx' & h' & m' & B & St & P1 & P2).
     destruct (A _ _ _ _ _ _ _ B St) as (cn & e & B2).
     destruct (bsE_sound _ _ _ _ B2) as (f0 & F). exists f0. intros f Hf. eexists. split; [apply F; exact Hf|]. split.
-    + intros E. destruct (P1 E) as (-> & -> & -> & ->). repeat split; reflexivity.
+    + intros E. destruct (P1 E) as (-> & -> & -> & -> & _). repeat split; reflexivity.
     + intros E. destruct (P2 E) as (-> & Hh & mm & ->). split; [reflexivity|]. split; [destruct Hh as [->| ->]; [left|right]; reflexivity|exists mm; reflexivity].
   - destruct A as (cn & e & r & sx' & B). destruct (bsE_sound _ _ _ _ B) as (f0 & F). exists f0. intros f Hf. eexists. split; [apply F; exact Hf|]. split; reflexivity.
 Qed.
